@@ -304,6 +304,23 @@ Proof.
   reflexivity.
 Qed.
 
+Lemma after_frame_finish_gen c s fr s1 :
+  handle_state fr s = s1 -> st_state s1 = SHalfClosed -> st_headersFinished s1 = true -> st_responded s1 = false ->
+  fst (after_frame cfg c s fr false) =
+  if st_hasCL s1 && negb (st_recvBody s1 =? st_contentLength s1)%Z
+  then kill c (set_state (set_weReset (set_flags s1 true (st_handlerRunning s1) (st_abandoned s1))) SClosed) c_ProtocolError
+  else put (note c (ODispatch (st_id s1) (st_req s1)))
+           (set_flags (set_flags s1 true (st_handlerRunning s1) (st_abandoned s1)) true true (st_abandoned s1)).
+Proof.
+  intros H S F Rp. unfold after_frame. rewrite H, S, F, Rp.
+  change (sstate_eqb SHalfClosed SHalfClosed) with true. cbn [andb negb].
+  cbn [st_hasCL st_recvBody st_contentLength set_flags st_id st_req st_abandoned st_handlerRunning].
+  destruct (st_hasCL s1 && negb (st_recvBody s1 =? st_contentLength s1)%Z)%bool.
+  - cbn [st_state set_state]. change (sstate_eqb SClosed SClosed) with true. cbv iota. unfold kill.
+    cbn [st_id set_state set_weReset fst cont andb]. reflexivity.
+  - cbn [st_state set_flags]. rewrite S. change (sstate_eqb SHalfClosed SClosed) with false. reflexivity.
+Qed.
+
 Lemma after_frame_finish c state h recv fr :
   handle_state fr (S_of sid win t0 state h recv) = S_of sid win t0 SHalfClosed h recv -> hd_headersFinished h = true ->
   fst (after_frame cfg c (S_of sid win t0 state h recv) fr false) =
@@ -311,14 +328,16 @@ Lemma after_frame_finish c state h recv fr :
   then put (note c (ODispatch sid (hd_req h))) (D_of h recv)
   else kill c (set_state (set_weReset (set_flags (S_of sid win t0 SHalfClosed h recv) true false false)) SClosed) c_ProtocolError.
 Proof.
-  intros H F. unfold after_frame. rewrite H.
-  cbn [st_state S_of st_headersFinished st_responded]. rewrite F.
-  change (sstate_eqb SHalfClosed SHalfClosed) with true.
-  cbn [andb negb S_of set_flags st_hasCL st_recvBody st_contentLength st_handlerRunning st_abandoned st_id st_req].
-  unfold cl_okZ, vabs. cbn [v_has v_cl].
-  destruct (hd_hasCL h && negb (recv =? hd_contentLength h)%Z)%bool; cbn [negb].
-  - cbn [set_state set_weReset st_state]. change (sstate_eqb SClosed SClosed) with true. reflexivity.
-  - cbn [st_state]. change (sstate_eqb SHalfClosed SClosed) with false. reflexivity.
+  intros H F. rewrite (after_frame_finish_gen c _ fr _ H eq_refl F eq_refl).
+  change (st_handlerRunning (S_of sid win t0 SHalfClosed h recv)) with false.
+  change (st_abandoned (S_of sid win t0 SHalfClosed h recv)) with false.
+  change (st_id (S_of sid win t0 SHalfClosed h recv)) with sid.
+  change (st_req (S_of sid win t0 SHalfClosed h recv)) with (hd_req h).
+  change (st_hasCL (S_of sid win t0 SHalfClosed h recv)) with (hd_hasCL h).
+  change (st_recvBody (S_of sid win t0 SHalfClosed h recv)) with recv.
+  change (st_contentLength (S_of sid win t0 SHalfClosed h recv)) with (hd_contentLength h).
+  unfold cl_okZ, vabs, D_of. cbn [v_has v_cl].
+  destruct (hd_hasCL h && negb (recv =? hd_contentLength h)%Z)%bool; cbn [negb]; reflexivity.
 Qed.
 
 (* ---------- handle_state on our frames ---------- *)
@@ -651,3 +670,8 @@ Proof.
 Qed.
 
 End Phase.
+
+Arguments PhBlock {hstate}. Arguments PhBody {hstate}. Arguments PhDisp {hstate}. Arguments PhDeadBlock {hstate}.
+Arguments PhDead {hstate}. Arguments PhGone {hstate}.
+Arguments holds {hstate}. Arguments alive {hstate}. Arguments alive_core {hstate}. Arguments dead {hstate}.
+Arguments gone {hstate}. Arguments base {hstate}. Arguments rejected {hstate}. Arguments out_ok {hstate}.
